@@ -2,6 +2,12 @@
 DEFERRED = "rules for this property are not armed yet (build order: DESIGN.md Appendix D); not claimed until a self-tested rule exists"
 
 CLAIMS = {
+    "C11": {
+        "level": "other",
+        "text": "The greeting is computed statically per path (all emissions before the first flush are constants; a local capability array OR-ed under tls_config().is_some() is folded by forward constant propagation) and parsed with an independent protocol-10 parser: PROTOCOL_41 always, CLIENT_SSL exactly on the TLS-offered path and never in the no-tls build, one packet, sequence 0. HandshakeResponse41/320 cursor offsets (caps @0/@2, user @32 / @5, NUL-delimited; user omitted only for the pre-TLS SSL request). Gate: every accepting path passes exactly one after_authentication and its Ok arm, then one flushed OK; rejecting paths write ERR 1045/28000, flush, return the shim's error; no other callback; command loop only after Ok. The user name handed to the shim is a copy of the last parsed response's user slice; a client that set CLIENT_SSL never reaches the shim without the TLS switch and a second response. Both feature configurations.",
+        "note": "Trusted: nom combinators; client acceptance of the constant version/salt is structural only.",
+        "technique": "constant folding of emission sequences + independent greeting parser, affine cursor offsets, path rules over all enumerated handshake paths",
+    },
     "C03": {
         "level": "other",
         "text": "Structural clauses of the response discipline: (1) the writer API is linear by types — completing methods consume self, writers are neither Clone nor Copy, fields and constructors are private (signature/impl/ADT tables from the type-checked program; thorough tier: 10 compile_fail witnesses with compiling twins); (2) the pending terminator is flushed first with more_results=true in start/complete_one/error and with false in no_more_results/Drop, the status word carries bit 0x0008 exactly on the more_results path, consumed with take(); (3) Finalizer::Ok iff zero columns, Eof otherwise, none on finish_error; (4) Drop impls complete; (5) per enumerated loop-iteration path: no-reply commands write nothing, library-answered commands always write, default shim methods use their writer (found and fixed: default on_init sent no reply); (6) a row packet ends only on paths whose conditions imply col == columns.len(), binary cells only after columns.get(col). The packet grammar for arbitrary writer programs is NOT decided.",
